@@ -6,6 +6,7 @@ ops:
                                             boundary on the Go side (the model has no addresses)
      kind 0: 00…   1: ff…   2: ff 00 ff 00…   3: 00 ff 00 ff…   4: splitmix64(pseed) low bytes
           5: splitmix64 bytes with three quarters forced to ff (long carry chains)
+  asmshape                                  instruction skeleton of checksum_amd64.s (structural tie, class avx2-asm-shape)
 answer (both sides):  a=<checksumAVX2|na> d=<checksum.Checksum> g=<gvisor checksum.Checksum>
 The oracle demands that each of the three equals the literal RFC 1071 specification; `a=na` (CPU
 without AVX2: the assembly was not exercised) is reported, never passed.
@@ -71,6 +72,8 @@ def answer (buf : List UInt8) (seed : Nat) (impl : String) (tag : String) : Out 
 
 def step (s : Unit) (args : List String) (impl : String) : Unit × Out :=
   match args with
+  | ["asmshape"] =>
+    (s, { model := asmSkeleton, verdict := expect "avx2-asm-shape" impl asmSkeleton, tag := "asmshape" })
   | ["sum", hex, seed] =>
     match hexToBytes hex, natArg seed with
     | some b, some seed =>
